@@ -25,7 +25,8 @@ RULE = ('send: 1-5 method calls through DBusClientConnection.callRemote on a UNI
         'its first messages pipelined behind BEGIN. recv_burst: 6/9/14 descriptor-carrying messages (up to 42 '
         'descriptors) whose descriptors are all, or all but the last few, queued before the first byte, under four '
         'chunkings. Non-trivial = >=2 descriptor-carrying messages with a descriptor '
-        'of a later message queued before an earlier message completes; distinct = distinct case JSON.')
+        'of a later message queued before an earlier message completes; distinct = distinct case JSON. send_again: one prepared '
+        'message object sent 2-3 times (one or two connections): every transmission carries its descriptors.')
 ASSUMPTIONS = ['the transport double stands in for the kernel: descriptors are delivered through '
                'fileDescriptorReceived in sending order and never after the last byte of their message',
                'only method calls carry descriptors (the only path txdbus offers)']
@@ -512,9 +513,78 @@ def enum_recv_burst(tier):
                     yield dict(case, cuts=sorted(set(c for c in cuts if 0 < c < ends[-1])))
 
 
+def enum_send_again(tier):
+    """A prepared message object sent more than once (re-issued call, one message for two connections): every
+    transmission carries the message's descriptors, ahead of its bytes."""
+    for nfd in (1, 2, 3):
+        for times in (2, 3):
+            for via in ('sendMessage', 'callRemoteMessage'):
+                for second_conn in (False, True):
+                    yield {'nfd': nfd, 'times': times, 'via': via, 'second_conn': second_conn}
+
+
+def run_send_again(case):
+    from txdbus import message as MSG
+    try:
+        rig = N.ClientRig(unix=True)
+        rig2 = None
+        if case['second_conn']:
+            rig.C.reactor = rig._saved_reactor
+            rig2 = N.ClientRig(unix=True, bus_name=':1.44')
+    except N.RigFailure as e:
+        return [Disc('send_again.establish-failed', str(e))]
+    out = []
+    try:
+        rig.sent_messages()
+        fds = [40 + i for i in range(case['nfd'])]
+        prepared = MSG.MethodCallMessage('/obj', 'Take', interface='org.verif.Fd', destination='org.verif.Peer',
+                                         signature='h' * case['nfd'], body=list(fds), expectReply=False, oobFDs=[])
+        other = MSG.MethodCallMessage('/obj', 'One', interface='org.verif.Fd', destination='org.verif.Peer',
+                                      signature='h', body=[77], expectReply=False, oobFDs=[])
+        plan = [(prepared, fds)] * case['times'] + [(other, [77])]
+        for k, (m, want_fds) in enumerate(plan):
+            r = rig2 if (rig2 is not None and k % 2 == 1) else rig
+            if r is rig2 and k == 1:
+                r.sent_messages()
+            try:
+                if case['via'] == 'sendMessage':
+                    r.conn.sendMessage(m)
+                else:
+                    r.conn.callRemoteMessage(m)
+            except Exception as e:
+                out.append(Disc(exc_key(e, 'send_again.raises'), exc_detail(e)))
+                break
+            ev = r.sent_messages()
+            got_fd = [e[1] for e in ev if e[0] == 'fd']
+            msgs = [e for e in ev if e[0] == 'msg']
+            if len(msgs) != 1 or (ev and ev[-1][0] != 'msg'):
+                out.append(Disc('send_again.shape', 'transmission %d: events %r' % (k, [e[0] for e in ev])))
+                break
+            if got_fd != want_fds:
+                out.append(Disc('send_again.descriptors-missing', 'transmission %d of %s: header declares %r, transport got '
+                                'descriptors %r, expected %r' % (k, m.member, msgs[0][1]['fields'].get(9), got_fd, want_fds)))
+                break
+            if msgs[0][1]['fields'].get(9) != len(want_fds):
+                out.append(Disc('send_again.unix_fds-header', 'transmission %d: %r' % (k, msgs[0][1]['fields'].get(9))))
+                break
+    finally:
+        rig.close_rig()
+    return out
+
+
+def classify_send_again(case):
+    labels = [case['via'], 'times=%d' % case['times']]
+    if case['second_conn']:
+        labels.append('two_connections')
+    return True, labels
+
+
 SUBCHECKS = [
     Subcheck('send', run_send, classify_send, strategy=lambda tier: send_case(tier),
              n={'quick': 150, 'thorough': 1500}),
+    Subcheck('send_again', run_send_again, classify_send_again, enumerate=enum_send_again, shards={'quick': 1, 'thorough': 1},
+             exhaustive_note='one prepared descriptor-carrying message sent 2-3 times (sendMessage / callRemoteMessage, one '
+                             'or two connections), then a fresh one'),
     Subcheck('recv', run_recv, classify_recv, strategy=lambda tier: recv_case(tier),
              n={'quick': 400, 'thorough': 4000}),
     Subcheck('recv_burst', run_recv, classify_recv, enumerate=enum_recv_burst, shards={'quick': 4, 'thorough': 4},
